@@ -307,19 +307,25 @@ func execXfer(s *xferScn, maxp int) *xferObs {
 		rwg.Wait()
 		close(finished)
 	}()
+	// the whole transfer takes milliseconds (a second with multi-megabyte payloads)
+	xferBound, closeBound := opBound, opBound
+	if bufSize > 1<<20 {
+		xferBound = 2 * opBound
+	}
 	select {
 	case <-finished:
-	case <-time.After(2 * opBound):
-		fail("transfer did not complete within %v (lost frame or hang)", 2*opBound)
+	case <-time.After(xferBound):
+		fail("transfer did not complete within %v (lost frame or hang)", xferBound)
 		o.Hung = true
+		closeBound = afterHangBound
 		killAll()
 	}
 	muxes[0].Close()
 	muxes[1].Close()
 	select {
 	case <-finished:
-	case <-time.After(opBound):
-		fail("readers or writers still blocked %v after Close", opBound)
+	case <-time.After(closeBound):
+		fail("readers or writers still blocked %v after Close", closeBound)
 	}
 
 	for d := 0; d < 2; d++ {
